@@ -46,7 +46,7 @@ def gen(seed, tier):
         children[rng.randrange(n)] = gen_child(rng, "random", supplies)
     ops = []
     for _ in range(rng.randint(1, 10) if rng.random() < 0.8 else rng.randint(11, 40)):
-        k = rng.choice(["write", "write", "write", "state", "state", "add", "remove", "read"])
+        k = rng.choice(["write", "write", "write", "state", "state", "add", "remove", "read"] + (["dup"] if rng.random() < 0.25 else []))
         if k == "write":
             ops.append(["write", rng.choice(demands)])
         elif k == "state":
@@ -56,6 +56,8 @@ def gen(seed, tier):
             ops.append(["add", gen_child(rng, rng.choice(["random", "zero"]), supplies)])
         elif k == "remove":
             ops.append(["remove", rng.randrange(9)])
+        elif k == "dup":
+            ops.append(["dup", rng.randrange(9)])  # the same pool listed once more: it counts once per entry
         else:
             ops.append(["read"])
     return {"prop": "C07", "seed": seed, "kind": kind, "children": children, "ops": ops, "initial_demand": rng.choice([0.0, 1.0, 5.0])}
@@ -160,6 +162,9 @@ def run(scenario, tape_values):
             elif k == "remove":
                 if comp.children:
                     comp.children.pop(op[1] % len(comp.children))
+            elif k == "dup":
+                if comp.children:
+                    comp.children.append(comp.children[op[1] % len(comp.children)])
             elif k == "read":
                 if written["D"] is not None and comp.demand != written["D"]:
                     V("C07/readback/%s" % kind, "composite reads back %r, last written %r" % (comp.demand, written["D"]))
